@@ -155,6 +155,31 @@ func runC06(c *Ctx) {
 		}
 	}
 
+	// W-unspent: the unspent index (what IsDoubleSpend reads) is updated through ONE working set per block
+	c.R.Rule("W-unspent", "UnspentIndex.ConnectBlock / DisconnectBlock load a transaction's unspent list from the database only on the absent arm of a lookup in a working-set map that is allocated once per block (in the function itself, outside its loops; it may be handed to a helper): two transactions of one block that touch outputs of the same earlier transaction see each other's update")
+	fetchU := callPred(R{"blockchain/indexers", "", "DBFetchUnspentIndexEntry"})
+	nU := 0
+	for _, name := range []string{"ConnectBlock", "DisconnectBlock"} {
+		f := c.fn("blockchain/indexers", "UnspentIndex", name)
+		if f == nil {
+			continue
+		}
+		for k, vc := range callsVia(f, fetchU) {
+			vc := vc
+			nU++
+			vc.with(func() {
+				host := vc.call.Parent()
+				blockWide := func(v ssa.Value) bool {
+					mk, ok := ssau.Unwrap(v).(*ssa.MakeMap)
+					return ok && mk.Parent() == f && len(loopHeaders(mk.Block())) == 0
+				}
+				c.G2("W-unspent", fmt.Sprintf("UnspentIndex.%s|fetch#%d only on a miss of the block-wide working set", name, k+1), host, vc.call.(ssa.Instruction),
+					"lookup in the per-block working set == absent", lookupAbsent(blockWide))
+			})
+		}
+	}
+	c.R.FloorCheck("W-unspent database fetches", nU, 2)
+
 	cc := c.fn(txpkg, "DefaultChecker", "ContextCheck")
 	if cc != nil {
 		ids := callPred(R{"blockchain", "Ledger", "IsDoubleSpend"})
